@@ -1,1 +1,4 @@
+pub mod doc;
+pub mod pair;
+pub mod tag;
 pub mod tok;
